@@ -8,6 +8,18 @@ non-empty otherwise; keys are returned in whatever order the bucket holds them.
 BUCKETS = {}        # bucket -> list of (key, bytes) in listing order
 CALLS = {'client': 0, 'resource': 0, 'paginate': 0, 'get': 0, 'pages': 0}
 CONFIG = {'page_size': 3}
+# failpoints (the service failing part-way): FAIL['page'] = n -> the n-th page of the next listing raises a
+# throttling ClientError once; FAIL['get'] = n -> the n-th GET from now on raises a connection error once
+FAIL = {'page': None, 'get': None}
+
+
+def _client_error(code):
+    try:
+        from botocore.exceptions import ClientError
+        return ClientError({'Error': {'Code': code, 'Message': 'injected by the verification workload'},
+                            'ResponseMetadata': {'HTTPStatusCode': 503}}, 'ListObjects')
+    except Exception:
+        return ConnectionError('injected: ' + code)
 
 
 def reset():
@@ -15,6 +27,7 @@ def reset():
     for k in CALLS:
         CALLS[k] = 0
     CONFIG['page_size'] = 3
+    FAIL['page'] = FAIL['get'] = None
 
 
 def put(bucket, key, body):
@@ -32,8 +45,11 @@ class _Paginator:
             CALLS['pages'] += 1
             yield {'IsTruncated': False, 'Name': Bucket, 'Prefix': Prefix}
             return
-        for i in range(0, len(keys), n):
+        for pno, i in enumerate(range(0, len(keys), n), start=1):
             CALLS['pages'] += 1
+            if FAIL['page'] is not None and pno == FAIL['page']:
+                FAIL['page'] = None
+                raise _client_error('SlowDown')
             yield {'IsTruncated': i + n < len(keys), 'Name': Bucket, 'Prefix': Prefix,
                    'Contents': [{'Key': k, 'Size': 1} for k in keys[i:i + n]]}
 
@@ -59,6 +75,11 @@ class _Object:
 
     def get(self):
         CALLS['get'] += 1
+        if FAIL['get'] is not None:
+            FAIL['get'] -= 1
+            if FAIL['get'] <= 0:
+                FAIL['get'] = None
+                raise ConnectionResetError('injected: connection reset while reading %s' % self.key)
         for k, b in BUCKETS.get(self.bucket, []):
             if k == self.key:
                 return {'Body': _Body(b)}
